@@ -35,7 +35,7 @@ def pla(name, k, epsfix=None, epsmax=2, ymax=12, xmax=255, maximality=True, tier
 
 
 def mkseg(name, nk, eps, chunks=1, xmax=254, tiers=Q, timeout=900):
-    d = dict(KT['uint8_t']); d.update(NK=nk, EPSFIX=eps, CHUNKS=chunks, XMAX=xmax, YMAXCHK=nk, MAXSEG=8, VERIF_VEC_CAP=nk + 4, VERIF_VECVEC_CAP=max(chunks, 2))
+    d = dict(KT['uint8_t']); d.update(NK=nk, EPSFIX=eps, CHUNKS=chunks, XMAX=xmax, YMAXCHK=nk, MAXSEG=nk + 2, VERIF_VEC_CAP=nk + 4, VERIF_VECVEC_CAP=max(chunks, 2))
     return dict(name=name, unit='pla.cpp', harness='h_mkseg.c', defs=d, narrow=16, timeout=timeout, tiers=tiers,
                 bounds='sorted arrays of exactly %d uint8_t keys in 0..%d (duplicates allowed), epsilon=%d, %s'
                        % (nk, xmax, eps, 'sequential driver' if chunks <= 1 else 'chunked driver with %d chunks (hook H1: real chunk loop run sequentially)' % chunks))
@@ -96,8 +96,11 @@ JOBS['C01'] = [
     e2e('e2e_u8_n3_e1_r0', 'uint8_t', 3, 1, 0),
     e2e('e2e_u8_n4_e1_r0', 'uint8_t', 4, 1, 0, tiers=T, timeout=3000),
 ]
-JOBS['C03'] = [pla('pla_fit_k3_e%d' % e, 3, epsfix=e, maximality=False) for e in (0, 1, 2)] + [pla('pla_fit_k4_e1', 4, epsfix=1, maximality=False)]
-JOBS['C03'] += [mkseg('mkseg_n3_e1', 3, 1), mkseg('mkseg_n4_e1_c2', 4, 1, chunks=2)]
+JOBS['C03'] = [pla('pla_fit_k3_e0', 3, epsfix=0, maximality=False),
+               pla('pla_fit_k3_e1_x63', 3, epsfix=1, xmax=63, ymax=6, maximality=False), pla('pla_fit_k3_e2_x31', 3, epsfix=2, xmax=31, ymax=6, maximality=False),
+               pla('pla_fit_k3_e1', 3, epsfix=1, maximality=False, tiers=T, timeout=3000), pla('pla_fit_k3_e2', 3, epsfix=2, maximality=False, tiers=T, timeout=3000),
+               pla('pla_fit_k4_e1_x31', 4, epsfix=1, xmax=31, ymax=6, maximality=False, tiers=T, timeout=3000)]
+JOBS['C03'] += [mkseg('mkseg_n3_e1', 3, 1), mkseg('mkseg_n3_e1_c2', 3, 1, chunks=2), mkseg('mkseg_n4_e1_c2', 4, 1, chunks=2, tiers=T, timeout=3000)]
 JOBS['C04'] = [pla('pla_max_k3_e%d_x15' % e, 3, epsfix=e, xmax=15, ymax=6) for e in (0, 1)] + \
               [pla('pla_max_k3_e1_x63', 3, epsfix=1, xmax=63, ymax=6, tiers=T, timeout=3000)]
 JOBS['C14'] = [md('md_contains_n1', 0, 1, 3), md('md_contains_n2', 0, 2, 3)]
@@ -108,7 +111,7 @@ JOBS['C15'] = [dyn('dyn_inv_noidx_b0_o2', 2, 0, 2, idxl=10), dyn('dyn_inv_noidx_
 JOBS['C05'] += [dynstep('dynstep_q_322', 0, 3, 2, 1)]
 JOBS['C06'] += [dynstep('dynstep_it_321', 1, 3, 2, 1), dynstep('dynstep_rng_321', 3, 3, 2, 1)]
 JOBS['C15'] += [dynstep('dynstep_inv_322', 2, 3, 2, 2)]
-JOBS['C11'] = [mapped('mapped_u8_n2', 'uint8_t', 2), mapped('mapped_i8_n3', 'int8_t', 3), mapped('mapped_u8_n3_dense', 'uint8_t', 3, ord_hi=3)]
+JOBS['C11'] = [mapped('mapped_u8_n2', 'uint8_t', 2), mapped('mapped_i8_n2', 'int8_t', 2), mapped('mapped_u8_n3_dense', 'uint8_t', 3, ord_hi=3), mapped('mapped_i8_n3', 'int8_t', 3, tiers=T, timeout=3000)]
 
 JOBS['C02'] = JOBS['C01']
 JOBS['C07'] = [e2e('e2e_u8_n3_e1_r1', 'uint8_t', 3, 1, 1), e2e('e2e_i8_n2_e1_r1', 'int8_t', 2, 1, 1), e2e('e2e_u8_n4_e1_r1', 'uint8_t', 4, 1, 1, tiers=T, timeout=3000)]
